@@ -79,7 +79,7 @@ CHECKS = {
              'regenerated per run): under the scanner rules that call it, no access outside [yytext, yytext+yyleng), no error, '
              'the value of the digits. Plus state_con/state_des of eight operator classes of op.cc (op_origin, op_subx, op_tr_closure, '
              'op_capture, op_bind, op_ifelse, op_format; op_merge bounded to 3 branches) against a ghost construction/destruction '
-             'log: own state area, every sub-operator and the upstream are constructed exactly once and destroyed exactly once, in reverse order.',
+             'log: own state area, every sub-operator and the upstream are constructed exactly once and destroyed exactly once, in reverse order. Plus the IFELSE case of build_exec (build.cc, the other cases of its switch dropped mechanically): condition, then and else are each laid out in a copy of the enclosing layout on an origin of their own, op_ifelse\'s own state lies beyond the states of EVERY arm and the enclosing layout covers every arm, for all state sizes (loop-free: complete against the assumed contract of the recursive call and the C13 contracts of reserve/add_union).',
         design_ref='DESIGN.md section 4 C13',
         note='SLICE: lazily constructed states (scon_guard users, op_or, overload instances), the root caller of state_con/state_des, '
              'leaks, use-after-free and parser memory are not covered. scon::con/des and sub-operators are modelled by a ghost event log (trusted).',
@@ -140,10 +140,10 @@ CHECKS = {
              'every branch yields all its results exactly once, a single input is answered left to right, and a stack fed after an earlier '
              'exhaustion is treated like any other (the pre-fix tree failed exactly this; fix 9db1e2e). ||: per input exactly the results of '
              'the first branch that yields anything for that input, whatever earlier inputs chose. Every pull hands on exactly the stack a branch yielded. '
-             'Format strings (op_format::next): per input exactly the strings the directive chain produces, numbered 0,1,2,... afresh. Thorough adds ALT with 3 branches.',
+             'Format strings (op_format::next): per input exactly the strings the directive chain produces, numbered 0,1,2,... afresh. Thorough adds ALT with 3 branches. Wiring (build_exec of build.cc, cases CAPTURE, CLOSE_STAR, CLOSE_PLUS: complete; OR, CAT: <= 3 sub-expressions; IFELSE under C13, ALT/SCOPE under C03): every sub-expression is built once, in written order, on an origin of its own reserved in the same layout before it, the operator is built on the current upstream and drives exactly that (origin, sub-expression) pair; a concatenation chains each element on the previous one.',
         design_ref='DESIGN.md section 4 C01',
-        note='bounded, never counted as proved. SLICE: concatenation, [ ], if-then-else, format strings, build.cc wiring not covered (op_subx under C04, '
-             'closures under C10). Trusted: cxx2c lowering; the handle model of stacks, move-nulls-source for unique_ptr, std::vector/std::all_of/scon models; '
+        note='bounded, never counted as proved. SLICE: the run-time operators of concatenation, [ ], if-then-else, the stringer operators and the build.cc cases FORMAT, SUBX_EVAL, BLOCK, READ, BIND, builtins are not covered (op_subx under C04, '
+             'closures under C10). The recursive build_exec call is an assumed contract with a ghost log. Trusted: cxx2c lowering; the handle model of stacks, move-nulls-source for unique_ptr, std::vector/std::all_of/scon models; '
              'the abstract branch operators.',
         technique='bounded unwinding (CBMC, unwinding assertions) of C lowered from the real C++ per run, against logged-yield postconditions',
     ),
@@ -174,9 +174,9 @@ CHECKS = {
              'keeps it per state location; a read pushes a copy of its OWN binder\'s value; bind-then-read restores the stack; an up-value read '
              'pushes the captured value with its id. BOUNDED: find over chains of <= 3 scopes (innermost wins, nullptr if none), the shadowing/no-leak '
              'law over two scopes, refd_ids over the 4-name table, the uprefs constructor of a nested block (knows exactly the visible names, none referenced, numbering from 0), '
-             'op_lex_closure with <= 4 up-values (up-value i = i-th value from the top). build_pred (build.cc): the sub-expression of ?( )/!( ) gets a scope of its own nested in the current one.',
+             'op_lex_closure with <= 4 up-values (up-value i = i-th value from the top). build_pred (build.cc): the sub-expression of ?( )/!( ) gets a scope of its own nested in the current one. build_exec (build.cc), cases ALT (<= 3 alternatives) and SCOPE (complete): every alternative / the body is built in a NEW scope object whose enclosing scope is the current one; the other lowered cases (IFELSE, CAPTURE, closures, ||, concatenation: C13/C01 jobs) hand the current scope on.',
         design_ref='DESIGN.md section 4 C03',
-        note='SLICE: which scope object each sub-expression gets (build.cc), the order of reads emitted for a block, the uprefs constructor, '
+        note='SLICE: the scope of format directives and the BLOCK/READ/BIND cases of build_exec (build.cc), the order of reads emitted for a block, the uprefs constructor, '
              'op_apply::substate and the grammar are NOT covered. Trusted: cxx2c lowering; identifiers as atoms and std::map as a total table over '
              '4 atoms; stacks as arrays of value identities; throw/assert as an error flag.',
         technique='CBMC on C lowered from the real C++ per run; loop-free functions over full symbolic model inputs, bounded unwinding for the rest',
